@@ -35,7 +35,7 @@ def _violation(rep, key, what, detail):
 T0 = 1_750_000_000
 
 
-def run_once(bindir, seed, ops, wd, clock, profile):
+def run_once(bindir, seed, ops, wd, clock, profile, vacuum=False):
     d = os.path.join(wd, "mem")
     tmp = os.path.join(wd, "tmp")
     for p in (d, tmp):
@@ -46,7 +46,7 @@ def run_once(bindir, seed, ops, wd, clock, profile):
     digest = os.path.join(wd, "digest.json")
     states = os.path.join(wd, "states.json")
     argv = [os.path.join(bindir, "mvdrive"), "runhist", "--seed", str(seed), "--ops", str(ops), "--dir", d, "--name", "mem.mv2", "--states", states,
-            "--digest", digest, "--profile", profile, "--final-commit", "--out", os.path.join(wd, "rep.json")]
+            "--digest", digest, "--profile", profile, "--final-commit", "--out", os.path.join(wd, "rep.json")] + (["--final-vacuum"] if vacuum else [])
     try:
         p = subprocess.run(argv, env=env, stdout=subprocess.PIPE, stderr=subprocess.PIPE, timeout=900)
     except subprocess.TimeoutExpired:
@@ -202,12 +202,13 @@ def c23(pid, tier, seed, scratch):
         for d in dirs:
             os.makedirs(d, exist_ok=True)
         try:
-            pa, a, da, sa = run_once(bindir, hseed, ops, dirs[0], T0, profile)
-            pb, b, db, sb = run_once(bindir, hseed, ops, dirs[1], T0, profile)
-            pc, c, dc, sc = run_once(bindir, hseed, ops, dirs[2], T0 + 1000, profile)
+            vac = h % 3 == 2  # every third history ends with a vacuum (compaction rewrites the payload region)
+            pa, a, da, sa = run_once(bindir, hseed, ops, dirs[0], T0, profile, vac)
+            pb, b, db, sb = run_once(bindir, hseed, ops, dirs[1], T0, profile, vac)
+            pc, c, dc, sc = run_once(bindir, hseed, ops, dirs[2], T0 + 1000, profile, vac)
             if sa["history"] != sb["history"] or sa["history"] != sc["history"]:
                 return {"inconclusive": {"case": f"history {hseed}", "reason": "the executions did not perform the same calls (an operation's outcome differed)"}}
-            return {"hseed": hseed, "profile": profile, "ops": [o.get("op") for o in sa["history"]], "len": len(a),
+            return {"hseed": hseed, "profile": profile, "vacuum": vac, "ops": [o.get("op") for o in sa["history"]], "len": len(a),
                     "same": compare(bindir, pa, a, da, pb, b, db), "shifted": compare(bindir, pa, a, da, pc, c, dc)}
         except C.Inconclusive as e:
             return {"inconclusive": {"case": f"history {hseed}", "reason": str(e)[:300]}}
@@ -222,7 +223,9 @@ def c23(pid, tier, seed, scratch):
             rep["inconclusive"].append(res["inconclusive"])
             continue
         rep["distinct_nontrivial"] += 1
-        detail = {"mode": "c23", "seed": res["hseed"], "ops": ops, "profile": res["profile"], "operations": res["ops"]}
+        detail = {"mode": "c23", "seed": res["hseed"], "ops": ops, "profile": res["profile"], "vacuum": res.get("vacuum", False), "operations": res["ops"]}
+        if res.get("vacuum"):
+            _count(rep, "histories_ending_with_vacuum")
         for which in ("same", "shifted"):
             cmpres = res[which]
             rep["evaluations"] += 1
@@ -260,9 +263,10 @@ def replay(detail, scratch):
     for d in dirs:
         os.makedirs(d, exist_ok=True)
     prof = detail.get("profile", "corpus")
-    pa, a, da, _ = run_once(bindir, detail["seed"], detail["ops"], dirs[0], T0, prof)
-    pb, b, db, _ = run_once(bindir, detail["seed"], detail["ops"], dirs[1], T0, prof)
-    pc, c, dc, _ = run_once(bindir, detail["seed"], detail["ops"], dirs[2], T0 + 1000, prof)
+    vac = detail.get("vacuum", False)
+    pa, a, da, _ = run_once(bindir, detail["seed"], detail["ops"], dirs[0], T0, prof, vac)
+    pb, b, db, _ = run_once(bindir, detail["seed"], detail["ops"], dirs[1], T0, prof, vac)
+    pc, c, dc, _ = run_once(bindir, detail["seed"], detail["ops"], dirs[2], T0 + 1000, prof, vac)
     same = compare(bindir, pa, a, da, pb, b, db)["keys"]
     shifted = compare(bindir, pa, a, da, pc, c, dc)["keys"]
     return sorted([f"C23:{k}:same-clock" for k in same] + [f"C23:{k}:clock-dependent" for k in shifted if k not in same])
